@@ -1,4 +1,5 @@
 import EAO.Model.Slp
+import EAO.Model.Readout
 import EAO.Model.Translate
 import EAO.Lemmas.Slp
 /-!
@@ -17,6 +18,8 @@ Property theorems only; helper lemmas live in `EAO/Lemmas/Slp.lean`.
 * `slp_mapping_faithful` — the mapping of the SLP: original rows unchanged, the copy for sample `i` of a row of
                          future variable `j` points at `slpEmbed … (i+1) j`; every label `< n_slp`; `firstRows` and
                          `boolVars` are the original ones plus their copies.
+* `slp_dispatch_mean`, `slp_dispatch_balance` — the reported dispatch of an SLP result is the mean over the scenarios
+                         of the dispatch of the recombined points; it balances wherever those balance.
 * abstract two-stage lemmas over arbitrary feasible sets and value functions:
   `slp_le_wait_and_see`, `ev_le_slp`, `slp_eq_det_of_equal`; their instances for `makeSlp`:
   `slp_le_wait_and_see_problem`, `slp_eq_det_of_equal_problem`.
@@ -302,6 +305,74 @@ theorem slp_mapping_faithful (P : Problem) (F : List Nat) (cs : List (List Rat))
     rw [e1, e2]
 
 
+/-! ## read-out of the dispatch of an SLP result -/
+
+/-- the tagged mapping rows of the SLP: original rows (tag −1 on rows of future variables), then the copies -/
+theorem slpMappingRows_eq (P : Problem) (F : List Nat) (S : Nat) (hlab : FutLabelsInRange P F) :
+    slpMappingRows P F S =
+      P.mapping.map (fun m => (m, if (slpMask P F).getD m.var false then some (-1 : Int) else none)) ++
+        (List.range S).flatMap fun i => (P.mapping.filter fun m => (slpMask P F).getD m.var false).map
+          fun m => (relabel (slpEmbed (slpMask P F) P.n (i + 1)) m, some (Int.ofNat i)) := by
+  unfold slpMappingRows slpCopyRows
+  simp only [slpIsFut_eq P F hlab, List.map_flatMap, List.map_map]
+  rfl
+
+/-- **slp_dispatch_mean.**  For any point `z` of the SLP problem the dispatch reported by the read-out for asset
+    `a` at (node `n`, step `t`) is the mean over the scenarios `s = 0 … S` of the dispatch of the original problem
+    at the recombined point `z ∘ embed s` — i.e. the dispatch of the present variables of that cell (common to
+    all scenarios, counted once, also when such a variable has a row on a future step) plus the mean of the
+    dispatch of the future variables.  Holds for any number of mapping rows per variable. -/
+theorem slp_dispatch_mean (P : Problem) (F : List Nat) (cs : List (List Rat)) (Q : Problem)
+    (h : makeSlp P F cs = .ok Q) (a n : String) (t : Nat) (z : Vec) :
+    slpDispatchOut Q.mapping (slpColumn P F cs.length) a n t z =
+      mean cs.length (fun s => dispatchOut P.mapping a n t (fun j => z (slpEmbed (slpMask P F) P.n s j))) := by
+  have hlab := ((makeSlp_ok_iff P F cs).mp ⟨Q, h⟩).2.1
+  have hQm := (makeSlp_eq P F cs Q h).2.2.2.2.2
+  have hshape := slpMappingRows_eq P F cs.length hlab
+  have hmap : Q.mapping = (slpMappingRows P F cs.length).map (·.1) := by
+    rw [hQm]
+    unfold slpMapping slpMappingRows
+    simp [List.map_append, List.map_map, Function.comp_def]
+  -- number of distinct sample ids, whenever it matters
+  have hk : ∀ m ∈ P.mapping, (slpMask P F).getD m.var false = true →
+      ((slpNSamples (slpColumn P F cs.length) : Nat) : Rat) = (cs.length : Rat) + 1 := by
+    intro m hm hf
+    have : slpNSamples (slpColumn P F cs.length) = cs.length + 1 := by
+      unfold slpColumn
+      rw [hshape]
+      simp only [List.map_append, List.map_map, List.map_flatMap, Function.comp_def]
+      exact slpNSamples_tags P.mapping (fun m => (slpMask P F).getD m.var false) cs.length ⟨m, hm, hf⟩
+    rw [this]; push_cast; ring
+  unfold slpDispatchOut
+  generalize ((slpNSamples (slpColumn P F cs.length) : Nat) : Rat) = k at hk ⊢
+  rw [hmap]
+  unfold slpColumn
+  rw [zip_map_fst_snd', hshape,
+    slpDispatchRows_eq P.mapping (fun m => (slpMask P F).getD m.var false) (fun i => slpEmbed (slpMask P F) P.n (i + 1))]
+  unfold dispatchOut
+  simp only [MapRow.contrib]
+  rw [mean_list_sum]
+  congr 1
+  apply List.map_congr_left
+  intro m hm
+  have hm' : m ∈ P.mapping := (List.mem_filter.mp hm).1
+  rw [row_mean]
+  by_cases hf : (slpMask P F).getD m.var false = true
+  · simp only [hf, if_true]
+    rw [hk m hm' hf]
+  · rw [if_neg hf, if_neg hf]
+
+/-- hence the reported SLP dispatch balances wherever every recombined point balances: the sum over a list of
+    assets of the reported dispatch is the mean of the scenario sums (with `slp_structure` and the nodal rows of
+    `P`: the mean of zeros) -/
+theorem slp_dispatch_balance (P : Problem) (F : List Nat) (cs : List (List Rat)) (Q : Problem)
+    (h : makeSlp P F cs = .ok Q) (names : List String) (n : String) (t : Nat) (z : Vec)
+    (hbal : ∀ s, s ≤ cs.length →
+      (names.map fun a => dispatchOut P.mapping a n t (fun j => z (slpEmbed (slpMask P F) P.n s j))).sum = 0) :
+    (names.map fun a => slpDispatchOut Q.mapping (slpColumn P F cs.length) a n t z).sum = 0 := by
+  simp only [slp_dispatch_mean P F cs Q h]
+  rw [← mean_list_sum, mean_congr _ _ (fun _ => 0) hbal, mean_const]
+
 /-! ## abstract two-stage lemmas (arbitrary feasible sets and value functions) -/
 section TwoStage
 variable {X Y : Type} (S : Nat) (Feas : Nat → X → Y → Prop) (v : Nat → X → Y → Rat)
@@ -505,6 +576,22 @@ private def exB : Problem :=
     mapping := [{ mr 0 0 with isBool := true }, { mr 1 1 with isBool := true }, mr2 1 1], nodal := [] }
 example : (match makeSlp exB [1] [[1, 5], [1, 7]] with | .ok Q => Q.boolVars | .error _ => []) = [0, 1, 2, 3] := by
   decide +kernel
+/-- read-out with a present variable reaching into the future (finding F-17h before commit 43d96c3): market `mkt`
+    (variables 0–3, steps 0–3) and one order `ob` (variable 4, rows on steps 0–3, first row in the present);
+    future = steps 2, 3, one sample.  At step 2 the order's common contribution 1 is NOT divided, the market's two
+    scenario copies (−1 and −1) are averaged: the cell balances -/
+private def mrA (asset : String) (v t : Nat) : MapRow :=
+  { var := v, asset := asset, node := some "n", kind := .d, step := t, factor := 1, isBool := false, varName := "disp" }
+private def exO : Problem :=
+  { c := [4, 2, 8, 6, 3], l := [-10, -10, -10, -10, 0], u := [10, 10, 10, 10, 1], rows := [],
+    mapping := [mrA "mkt" 0 0, mrA "mkt" 1 1, mrA "mkt" 2 2, mrA "mkt" 3 3,
+                mrA "ob" 4 0, mrA "ob" 4 1, mrA "ob" 4 2, mrA "ob" 4 3], nodal := [] }
+private def zO : Vec := fun j => [-1, -1, -1, -1, 1, -1, -1].getD j 0
+example : slpMask exO [2, 3] = [false, false, true, true, false] := by decide
+example : slpColumn exO [2, 3] 1 = [none, none, some (-1), some (-1), none, none, none, none, some 0, some 0] := by decide
+example : (match makeSlp exO [2, 3] [[4, 2, 1, 12, 3]] with
+    | .ok Q => ["ob", "mkt"].map fun a => slpDispatchOut Q.mapping (slpColumn exO [2, 3] 1) a "n" 2 zO
+    | .error _ => []) = [1, -1] := by decide +kernel
 example : robustObjective [[1, 2, 3], [3, 0, 0]] (fun j => [1, 1, 0].getD j 0) = some (-3) := by decide +kernel
 end Example
 
